@@ -224,7 +224,7 @@ fn parse_point<'a>(
 
 fn parse_index(s: &str) -> Result<usize> {
     // OBJ has one-based indices
-    Ok(s.parse::<usize>()? - 1)
+    s.parse::<usize>()?.checked_sub(1).ok_or(InvalidValue)
 }
 
 fn parse_indices(param: &str) -> Result<Indices> {
